@@ -208,6 +208,65 @@ def oracle_bounded_instance():
                     mode='bounded', bounded_n=300, frame=False)
 
 
+def int_types_bounded_instance():
+    """Score matrices of every signed integer element type with entries up to the ends of the type's range: the totals of the
+    optimal search are mathematical integers, not numbers of the element type."""
+    from pb_bss import permutation_alignment as pa
+
+    def make(B):
+        return {'K': B.choose('K', [2, 3, 4, 5]), 'dt': B.choose('dt', ['int8', 'int16', 'int32', 'int64']),
+                'seed': B.choose('seed', list(range(4000))), 'd': B.given('d', np.zeros(1))}
+
+    def call(inp):
+        rng = np.random.RandomState(inp['seed'])
+        K, dt = inp['K'], np.dtype(inp['dt'])
+        info = np.iinfo(dt)
+        hi = min(int(info.max), 2 ** 40)
+        lo = max(int(info.min), -2 ** 40)
+        kind = inp['seed'] % 3
+        if kind == 0:
+            s = rng.randint(lo // 1, hi, size=(K, K), dtype=np.int64)
+        elif kind == 1:
+            s = rng.randint(hi // 2, hi, size=(K, K), dtype=np.int64)           # every total leaves the range of a small type
+        else:
+            s = rng.randint(0, 3, size=(K, K), dtype=np.int64) * (hi // 2)
+        s = s.astype(dt)
+        s0 = s.copy()
+        res = {'optimal': pa._mapping_from_score_matrix(s, 'optimal'), 'greedy': pa._mapping_from_score_matrix(s, 'greedy'),
+               'score': s0, 'untouched': bool(np.array_equal(s, s0) and s.dtype == dt)}
+        # hard masks of a small integer type (or bool) through the oracle aligner: the inner products go up to T = 400, beyond int8,
+        # with one dominant class for every other seed
+        T = int(rng.randint(K + 1, 400))
+        lab = rng.randint(0, K, size=T)
+        if inp['seed'] % 2:
+            lab[rng.rand(T) < 0.8] = 0
+        lab[:K] = np.arange(K)
+        mdt = np.dtype(bool) if inp['seed'] % 5 == 0 else dt
+        ref = np.stack([(lab == k) for k in range(K)]).astype(mdt)[:, None, :]            # (K, 1, T)
+        perm = rng.permutation(K)
+        al = pa.OraclePermutationAlignment('multiply', ['optimal', 'greedy'][inp['seed'] % 2])
+        res['oracle'] = (np.asarray(al(ref[perm].copy(), ref.copy())), ref)
+        return res
+
+    def ensures(sp, inp, out):
+        from scipy.optimize import linear_sum_assignment
+        K = inp['K']
+        s = np.asarray(out['score']).astype(object)                # exact integer arithmetic
+        opt, gr = np.asarray(out['optimal']), np.asarray(out['greedy'])
+        yield 'permutations', sorted(opt.tolist()) == list(range(K)) and sorted(gr.tolist()) == list(range(K))
+        best = max(sum(s[i, p[i]] for i in range(K)) for p in itertools.permutations(range(K)))
+        yield 'optimal-attains-the-maximum-total-over-all-permutations', sum(s[i, opt[i]] for i in range(K)) == best
+        r, c = linear_sum_assignment(-np.asarray(out['score'], dtype=np.float64))
+        yield 'optimal-equals-linear-sum-assignment-optimum', abs(float(best) - float(np.asarray(out['score'], dtype=np.float64)[r, c].sum())) <= 1e-9 * max(1.0, abs(float(best)))
+        yield 'greedy<=optimal', sum(s[i, gr[i]] for i in range(K)) <= best
+        yield 'score-matrix-untouched', out['untouched']
+        got, ref = out['oracle']
+        yield 'oracle-restores-integer-reference', bool(np.array_equal(got, ref))
+
+    return Instance('C15', PA + '_mapping_from_score_matrix', 'bounded-integer-element-types', make, call, ensures,
+                    mode='bounded', bounded_n=200, frame=False)
+
+
 def instances(tier):
     th = tier == 'thorough'
     out = []
@@ -236,4 +295,5 @@ def instances(tier):
             out.append(oracle_instance(3, 1, 3, 'multiply', 'greedy', np.array([p]).T))
     out.append(lsa_bounded_instance())
     out.append(oracle_bounded_instance())
+    out.append(int_types_bounded_instance())
     return out
